@@ -255,6 +255,12 @@ func genValueInterface(n *node) func(*frame) reflect.Value {
 			return v
 		}
 
+		if v.IsValid() && v.CanAddr() && (v.Kind() == reflect.Struct || v.Kind() == reflect.Array) {
+			// an interface holds a copy of the value, not the variable it was read from
+			c := reflect.New(v.Type()).Elem()
+			c.Set(v)
+			v = c
+		}
 		return reflect.ValueOf(valueInterface{nod, v})
 	}
 }
